@@ -1,3 +1,941 @@
-pub(crate) fn run(_args: &engine::Args) -> i32 {
-    engine::machinery_failure("not implemented")
+//! C24 - the server enforces authentication and per-database permissions.
+//!
+//! Enumerated: every sequence of <= d requests over an alphabet
+//! (caller kind x operation) from 3 base worlds, on the real router/extractors/
+//! server db (in-process server, current-thread runtime).
+//!   callers: admin | usr1 | usr2 (valid tokens) | loggedout (a token that was
+//!            logged out) | expired (stored expiry rewritten to the past) |
+//!            garbage (well-formed unknown token) | none (no header);
+//!            loggedout/expired are admin's tokens on /admin/ routes and usr1's
+//!            (the owner's) elsewhere
+//!   operations: see `ops()` - db add/delete/remove/copy/rename/backup/clear/
+//!            optimize/audit, exec (read), exec (write query), exec_mut, db
+//!            user add (read|write|admin)/remove, user logout, and the admin
+//!            routes user add/delete/logout/logout_all/list, db add/delete/
+//!            exec_mut/user add/rename(transfer)/list
+//! Oracle = the documented permission table ("Database Actions" in
+//! agdb_web/content/docs/03.references/02.server.md) + token validity,
+//! one-directional as the statement is:
+//!   not permitted      => status 401/403/404 AND the observable world (users
+//!                         with session counts, every db with owner, type, roles,
+//!                         complete content, audit log, backup flag) unchanged
+//!   permitted and 2xx  => the world equals the reference model after applying
+//!                         the operation's effect
+//!   permitted, not 2xx => nothing demanded (counted)
+//! The model's role table is its own (never read back from the server).
+
+use crate::vh::lab::{Base, Lab, Req, Setup};
+use crate::vh::refdb::{RefDb, is_mutating};
+use crate::vh::world::PASSWORD;
+use agdb::{QueryBuilder, QueryType};
+use agdb_api::Queries;
+use engine::{Args, DistinctCounter, Report, Tier};
+use serde_json::{Value, json};
+use std::collections::{BTreeMap, BTreeSet};
+use std::sync::atomic::{AtomicU64, Ordering};
+
+const CALLERS: [&str; 7] = ["admin", "usr1", "usr2", "loggedout", "expired", "garbage", "none"];
+
+#[derive(Clone, Debug, PartialEq)]
+enum Op {
+    Add(&'static str, &'static str),
+    Delete(&'static str, &'static str),
+    Remove(&'static str, &'static str),
+    /// copy (owner, db) to <caller>/<new>
+    Copy(&'static str, &'static str, &'static str),
+    Rename(&'static str, &'static str, &'static str),
+    Backup(&'static str, &'static str),
+    ClearAll(&'static str, &'static str),
+    Optimize(&'static str, &'static str),
+    Audit(&'static str, &'static str),
+    ExecRead(&'static str, &'static str),
+    /// a mutating query through the read-only endpoint
+    ExecWrite(&'static str, &'static str),
+    ExecMut(&'static str, &'static str),
+    UserAdd(&'static str, &'static str, &'static str, &'static str),
+    UserRemove(&'static str, &'static str, &'static str),
+    UserList(&'static str, &'static str),
+    DbList,
+    Logout,
+    AdminUserAdd(&'static str),
+    AdminUserDelete(&'static str),
+    AdminUserLogout(&'static str),
+    AdminLogoutAll,
+    AdminUserList,
+    AdminDbAdd(&'static str, &'static str),
+    AdminDbDelete(&'static str, &'static str),
+    AdminDbExecMut(&'static str, &'static str),
+    AdminDbUserAdd(&'static str, &'static str, &'static str, &'static str),
+    /// transfer: (owner, db) -> (new owner, new db)
+    AdminDbRename(&'static str, &'static str, &'static str, &'static str),
+    AdminDbList,
+}
+
+fn read_queries() -> Vec<QueryType> {
+    vec![QueryBuilder::select().node_count().query().into()]
+}
+
+fn write_queries() -> Vec<QueryType> {
+    vec![QueryBuilder::insert().nodes().count(1).query().into()]
+}
+
+fn init_queries() -> Vec<QueryType> {
+    vec![QueryBuilder::insert().nodes().aliases("root").values([[("k", 0).into()]]).query().into()]
+}
+
+fn qjson(q: &[QueryType]) -> Value {
+    serde_json::to_value(Queries(q.to_vec())).unwrap()
+}
+
+impl Op {
+    fn label(&self) -> String {
+        match self {
+            Op::Add(o, d) => format!("add:{o}/{d}"),
+            Op::Delete(o, d) => format!("delete:{o}/{d}"),
+            Op::Remove(o, d) => format!("remove:{o}/{d}"),
+            Op::Copy(o, d, n) => format!("copy:{o}/{d}->{n}"),
+            Op::Rename(o, d, n) => format!("rename:{o}/{d}->{n}"),
+            Op::Backup(o, d) => format!("backup:{o}/{d}"),
+            Op::ClearAll(o, d) => format!("clear:{o}/{d}"),
+            Op::Optimize(o, d) => format!("optimize:{o}/{d}"),
+            Op::Audit(o, d) => format!("audit:{o}/{d}"),
+            Op::ExecRead(o, d) => format!("exec-read:{o}/{d}"),
+            Op::ExecWrite(o, d) => format!("exec-write:{o}/{d}"),
+            Op::ExecMut(o, d) => format!("exec_mut:{o}/{d}"),
+            Op::UserAdd(o, d, u, r) => format!("db-user-add-{r}:{o}/{d}:{u}"),
+            Op::UserRemove(o, d, u) => format!("db-user-remove:{o}/{d}:{u}"),
+            Op::UserList(o, d) => format!("db-user-list:{o}/{d}"),
+            Op::DbList => "db-list".to_string(),
+            Op::Logout => "logout".to_string(),
+            Op::AdminUserAdd(u) => format!("admin-user-add:{u}"),
+            Op::AdminUserDelete(u) => format!("admin-user-delete:{u}"),
+            Op::AdminUserLogout(u) => format!("admin-user-logout:{u}"),
+            Op::AdminLogoutAll => "admin-logout-all".to_string(),
+            Op::AdminUserList => "admin-user-list".to_string(),
+            Op::AdminDbAdd(o, d) => format!("admin-db-add:{o}/{d}"),
+            Op::AdminDbDelete(o, d) => format!("admin-db-delete:{o}/{d}"),
+            Op::AdminDbExecMut(o, d) => format!("admin-db-exec_mut:{o}/{d}"),
+            Op::AdminDbUserAdd(o, d, u, r) => format!("admin-db-user-add-{r}:{o}/{d}:{u}"),
+            Op::AdminDbRename(o, d, no, nd) => format!("admin-db-rename:{o}/{d}->{no}/{nd}"),
+            Op::AdminDbList => "admin-db-list".to_string(),
+        }
+    }
+
+    /// operation kind without its target (signatures)
+    fn kind(&self) -> String {
+        self.label().split(':').next().unwrap_or("?").to_string()
+    }
+
+    fn is_admin_route(&self) -> bool {
+        matches!(
+            self,
+            Op::AdminUserAdd(_) | Op::AdminUserDelete(_) | Op::AdminUserLogout(_) | Op::AdminLogoutAll | Op::AdminUserList | Op::AdminDbAdd(..) | Op::AdminDbDelete(..) | Op::AdminDbExecMut(..) | Op::AdminDbUserAdd(..) | Op::AdminDbRename(..) | Op::AdminDbList
+        )
+    }
+
+    fn request(&self, caller: &str) -> Req {
+        // loggedout / expired: admin's token on admin routes, the owner's elsewhere
+        let key = match (caller, self.is_admin_route()) {
+            ("loggedout", true) => "admin_loggedout",
+            ("loggedout", false) => "usr1_loggedout",
+            ("expired", true) => "admin_expired",
+            ("expired", false) => "usr1_expired",
+            (c, _) => c,
+        };
+        let (m, uri, body): (&str, String, Option<Value>) = match self {
+            Op::Add(o, d) => ("POST", format!("/db/{o}/{d}/add?db_type=mapped"), None),
+            Op::Delete(o, d) => ("DELETE", format!("/db/{o}/{d}/delete"), None),
+            Op::Remove(o, d) => ("DELETE", format!("/db/{o}/{d}/remove"), None),
+            Op::Copy(o, d, n) => ("POST", format!("/db/{o}/{d}/copy?new_db={n}"), None),
+            Op::Rename(o, d, n) => ("POST", format!("/db/{o}/{d}/rename?new_db={n}"), None),
+            Op::Backup(o, d) => ("POST", format!("/db/{o}/{d}/backup"), None),
+            Op::ClearAll(o, d) => ("POST", format!("/db/{o}/{d}/clear?resource=all"), None),
+            Op::Optimize(o, d) => ("POST", format!("/db/{o}/{d}/optimize"), None),
+            Op::Audit(o, d) => ("GET", format!("/db/{o}/{d}/audit"), None),
+            Op::ExecRead(o, d) => ("POST", format!("/db/{o}/{d}/exec"), Some(qjson(&read_queries()))),
+            Op::ExecWrite(o, d) => ("POST", format!("/db/{o}/{d}/exec"), Some(qjson(&write_queries()))),
+            Op::ExecMut(o, d) => ("POST", format!("/db/{o}/{d}/exec_mut"), Some(qjson(&write_queries()))),
+            Op::UserAdd(o, d, u, r) => ("PUT", format!("/db/{o}/{d}/user/{u}/add?db_role={r}"), None),
+            Op::UserRemove(o, d, u) => ("DELETE", format!("/db/{o}/{d}/user/{u}/remove"), None),
+            Op::UserList(o, d) => ("GET", format!("/db/{o}/{d}/user/list"), None),
+            Op::DbList => ("GET", "/db/list".to_string(), None),
+            Op::Logout => ("POST", "/user/logout".to_string(), None),
+            Op::AdminUserAdd(u) => ("POST", format!("/admin/user/{u}/add"), Some(json!({"password": PASSWORD}))),
+            Op::AdminUserDelete(u) => ("DELETE", format!("/admin/user/{u}/delete"), None),
+            Op::AdminUserLogout(u) => ("POST", format!("/admin/user/{u}/logout"), None),
+            Op::AdminLogoutAll => ("POST", "/admin/user/logout_all".to_string(), None),
+            Op::AdminUserList => ("GET", "/admin/user/list".to_string(), None),
+            Op::AdminDbAdd(o, d) => ("POST", format!("/admin/db/{o}/{d}/add?db_type=mapped"), None),
+            Op::AdminDbDelete(o, d) => ("DELETE", format!("/admin/db/{o}/{d}/delete"), None),
+            Op::AdminDbExecMut(o, d) => ("POST", format!("/admin/db/{o}/{d}/exec_mut"), Some(qjson(&write_queries()))),
+            Op::AdminDbUserAdd(o, d, u, r) => ("PUT", format!("/admin/db/{o}/{d}/user/{u}/add?db_role={r}"), None),
+            Op::AdminDbRename(o, d, no, nd) => ("POST", format!("/admin/db/{o}/{d}/rename?new_owner={no}&new_db={nd}"), None),
+            Op::AdminDbList => ("GET", "/admin/db/list".to_string(), None),
+        };
+        Req::new(key, m, &uri, body, &self.label())
+    }
+}
+
+/// the full operation list (simplest first)
+fn ops() -> Vec<Op> {
+    let (o, d) = ("usr1", "db1");
+    vec![
+        Op::ExecRead(o, d),
+        Op::Audit(o, d),
+        Op::UserList(o, d),
+        Op::DbList,
+        Op::ExecWrite(o, d),
+        Op::ExecMut(o, d),
+        Op::Optimize(o, d),
+        Op::Backup(o, d),
+        Op::ClearAll(o, d),
+        Op::UserAdd(o, d, "usr2", "read"),
+        Op::UserAdd(o, d, "usr2", "write"),
+        Op::UserAdd(o, d, "usr2", "admin"),
+        Op::UserRemove(o, d, "usr2"),
+        Op::Copy(o, d, "db9"),
+        Op::Rename(o, d, "db9"),
+        Op::Remove(o, d),
+        Op::Delete(o, d),
+        Op::Add("usr1", "db1"),
+        Op::Add("usr2", "db9"),
+        Op::ExecMut("usr2", "db9"),
+        Op::Delete("usr2", "db9"),
+        Op::ExecMut("usr1", "db9"),
+        Op::ExecMut("usr2", "db2"),
+        Op::UserAdd("usr2", "db2", "usr1", "admin"),
+        Op::Delete("usr2", "db2"),
+        Op::Logout,
+        Op::AdminUserList,
+        Op::AdminDbList,
+        Op::AdminUserAdd("usr3"),
+        Op::AdminUserLogout("usr1"),
+        Op::AdminLogoutAll,
+        Op::AdminUserDelete("usr2"),
+        Op::AdminDbAdd("usr1", "db9"),
+        Op::AdminDbExecMut(o, d),
+        Op::AdminDbUserAdd(o, d, "usr2", "write"),
+        Op::AdminDbRename(o, d, "usr2", "db1"),
+        Op::AdminDbDelete(o, d),
+    ]
+}
+
+/// operations tried with the four invalid caller kinds in the standard alphabet
+fn invalid_caller_ops() -> Vec<String> {
+    ["exec-read:usr1/db1", "exec_mut:usr1/db1", "delete:usr1/db1", "db-user-add-admin:usr1/db1:usr2", "logout", "admin-user-list", "admin-user-add:usr3", "admin-db-delete:usr1/db1"].iter().map(|s| s.to_string()).collect()
+}
+
+/// the reduced alphabet used at depth 3: (caller, op label)
+fn reduced_alphabet() -> Vec<(&'static str, &'static str)> {
+    vec![
+        ("usr1", "exec_mut:usr1/db1"),
+        ("usr1", "db-user-add-read:usr1/db1:usr2"),
+        ("usr1", "db-user-add-write:usr1/db1:usr2"),
+        ("usr1", "db-user-add-admin:usr1/db1:usr2"),
+        ("usr1", "db-user-remove:usr1/db1:usr2"),
+        ("usr1", "rename:usr1/db1->db9"),
+        ("usr1", "remove:usr1/db1"),
+        ("usr1", "delete:usr1/db1"),
+        ("usr1", "add:usr1/db1"),
+        ("usr1", "logout"),
+        ("usr1", "exec_mut:usr2/db2"),
+        ("usr1", "exec_mut:usr2/db9"),
+        ("usr1", "delete:usr2/db2"),
+        ("usr1", "exec_mut:usr1/db9"),
+        ("usr2", "exec-read:usr1/db1"),
+        ("usr2", "exec-write:usr1/db1"),
+        ("usr2", "exec_mut:usr1/db1"),
+        ("usr2", "optimize:usr1/db1"),
+        ("usr2", "backup:usr1/db1"),
+        ("usr2", "clear:usr1/db1"),
+        ("usr2", "db-user-add-admin:usr1/db1:usr2"),
+        ("usr2", "db-user-remove:usr1/db1:usr2"),
+        ("usr2", "copy:usr1/db1->db9"),
+        ("usr2", "rename:usr1/db1->db9"),
+        ("usr2", "delete:usr1/db1"),
+        ("usr2", "remove:usr1/db1"),
+        ("usr2", "add:usr2/db9"),
+        ("usr2", "exec_mut:usr2/db9"),
+        ("usr2", "delete:usr2/db9"),
+        ("usr2", "db-user-add-admin:usr2/db2:usr1"),
+        ("usr2", "logout"),
+        ("usr2", "admin-db-delete:usr1/db1"),
+        ("usr2", "admin-user-add:usr3"),
+        ("admin", "exec_mut:usr1/db1"),
+        ("admin", "admin-db-exec_mut:usr1/db1"),
+        ("admin", "admin-db-user-add-write:usr1/db1:usr2"),
+        ("admin", "admin-db-rename:usr1/db1->usr2/db1"),
+        ("admin", "admin-db-delete:usr1/db1"),
+        ("admin", "admin-user-logout:usr1"),
+        ("admin", "admin-logout-all"),
+        ("admin", "admin-user-delete:usr2"),
+        ("admin", "logout"),
+        ("loggedout", "exec_mut:usr1/db1"),
+        ("loggedout", "admin-db-delete:usr1/db1"),
+        ("expired", "exec_mut:usr1/db1"),
+        ("expired", "admin-db-delete:usr1/db1"),
+        ("garbage", "exec_mut:usr1/db1"),
+        ("none", "delete:usr1/db1"),
+    ]
+}
+
+// ---------------------------------------------------------------------------
+// reference model
+
+struct MDb {
+    kind: String,
+    roles: BTreeMap<String, String>,
+    content: RefDb,
+    audit: Vec<Value>,
+    has_backup: bool,
+}
+
+impl MDb {
+    fn copy(&self) -> MDb {
+        MDb { kind: self.kind.clone(), roles: self.roles.clone(), content: self.content.copy(), audit: self.audit.clone(), has_backup: self.has_backup }
+    }
+}
+
+struct Model {
+    /// user -> live sessions
+    users: BTreeMap<String, usize>,
+    /// caller key -> (user, token valid)
+    tokens: BTreeMap<String, (String, bool)>,
+    dbs: BTreeMap<(String, String), MDb>,
+    /// files left on disk by `remove`
+    orphans: BTreeMap<(String, String), MDb>,
+}
+
+fn rank(role: Option<&String>) -> u8 {
+    match role.map(|s| s.as_str()) {
+        Some("admin") => 3,
+        Some("write") => 2,
+        Some("read") => 1,
+        _ => 0,
+    }
+}
+
+impl Model {
+    /// The model of a base world: users, sessions, roles, audit are read once from the freshly
+    /// restored world; the content reference is rebuilt from the base's known set-up queries
+    /// and must reproduce the observed dump.
+    fn of_base(obs: &Value) -> Model {
+        let mut users = BTreeMap::new();
+        for u in obs["users"].as_array().cloned().unwrap_or_default() {
+            users.insert(u["name"].as_str().unwrap_or("").to_string(), u["sessions"].as_u64().unwrap_or(0) as usize);
+        }
+        let mut tokens = BTreeMap::new();
+        for (k, u, v) in [
+            ("admin", "admin", true),
+            ("usr1", "usr1", true),
+            ("usr2", "usr2", true),
+            ("admin_loggedout", "admin", false),
+            ("usr1_loggedout", "usr1", false),
+            ("admin_expired", "admin", false),
+            ("usr1_expired", "usr1", false),
+        ] {
+            tokens.insert(k.to_string(), (u.to_string(), v));
+        }
+        let mut dbs = BTreeMap::new();
+        for d in obs["dbs"].as_array().cloned().unwrap_or_default() {
+            let mut content = RefDb::new();
+            content.apply(&init_queries()).unwrap_or_else(|e| engine::machinery_failure(&format!("reference set-up: {e}")));
+            if content.dump() != d["dump"] {
+                engine::machinery_failure(&format!("reference content does not reproduce base database {}/{}: {} vs {}", d["owner"], d["db"], content.dump(), d["dump"]));
+            }
+            let mut roles = BTreeMap::new();
+            for r in d["roles"].as_array().cloned().unwrap_or_default() {
+                roles.insert(r[0].as_str().unwrap_or("").to_string(), r[1].as_str().unwrap_or("").to_string());
+            }
+            dbs.insert(
+                (d["owner"].as_str().unwrap_or("").to_string(), d["db"].as_str().unwrap_or("").to_string()),
+                MDb { kind: d["type"].as_str().unwrap_or("").to_string(), roles, content, audit: d["audit"].as_array().cloned().unwrap_or_default(), has_backup: d["has_backup"].as_bool().unwrap_or(false) },
+            );
+        }
+        Model { users, tokens, dbs, orphans: BTreeMap::new() }
+    }
+
+    fn observe(&self) -> Value {
+        let users: Vec<Value> = self.users.iter().map(|(n, s)| json!({"name": n, "admin": n == "admin", "sessions": s})).collect();
+        let dbs: Vec<Value> = self
+            .dbs
+            .iter()
+            .map(|((o, d), m)| {
+                let roles: Vec<(String, String)> = m.roles.iter().map(|(a, b)| (a.clone(), b.clone())).collect();
+                json!({"owner": o, "db": d, "type": m.kind, "has_backup": m.has_backup, "roles": roles, "dump": m.content.dump(), "audit": m.audit})
+            })
+            .collect();
+        json!({"users": users, "dbs": dbs})
+    }
+
+    /// the user a caller key authenticates as, if its token is valid
+    fn who(&self, key: &str) -> Option<String> {
+        let (u, valid) = self.tokens.get(key)?;
+        if *valid && self.users.contains_key(u) { Some(u.clone()) } else { None }
+    }
+
+    fn role(&self, user: &str, o: &str, d: &str) -> u8 {
+        self.dbs.get(&(o.to_string(), d.to_string())).map(|m| rank(m.roles.get(user))).unwrap_or(0)
+    }
+
+    fn role_name(&self, user: Option<&String>, op: &Op) -> &'static str {
+        let Some(user) = user else { return "unauthenticated" };
+        let target = match op {
+            Op::Add(o, d) | Op::Delete(o, d) | Op::Remove(o, d) | Op::Copy(o, d, _) | Op::Rename(o, d, _) | Op::Backup(o, d) | Op::ClearAll(o, d) | Op::Optimize(o, d) | Op::Audit(o, d) | Op::ExecRead(o, d) | Op::ExecWrite(o, d) | Op::ExecMut(o, d) | Op::UserAdd(o, d, ..) | Op::UserRemove(o, d, _) | Op::UserList(o, d) => Some((*o, *d)),
+            _ => None,
+        };
+        match target {
+            None => {
+                if user == "admin" {
+                    "server-admin"
+                } else {
+                    "user"
+                }
+            }
+            Some((o, d)) => {
+                if user == o {
+                    if self.dbs.contains_key(&(o.to_string(), d.to_string())) { "owner" } else { "owner-no-db" }
+                } else {
+                    match self.role(user, o, d) {
+                        3 => "db-admin",
+                        2 => "db-write",
+                        1 => "db-read",
+                        _ => "no-role",
+                    }
+                }
+            }
+        }
+    }
+
+    /// The documented permission table.
+    fn permitted(&self, key: &str, op: &Op) -> bool {
+        let Some(user) = self.who(key) else { return false };
+        let u = user.as_str();
+        match op {
+            // owner
+            Op::Add(o, _) => u == *o,
+            // (for a database that does not exist the owner's request can only fail; nothing is demanded then)
+            Op::Delete(o, _) | Op::Remove(o, _) | Op::Rename(o, _, _) => u == *o,
+            // db admin
+            Op::Backup(o, d) | Op::ClearAll(o, d) | Op::UserAdd(o, d, ..) => self.role(u, o, d) >= 3,
+            // db admin; a user may also give up their own role (repository test db_user_remove_test::remove_self)
+            Op::UserRemove(o, d, target) => self.role(u, o, d) >= 3 || (u == *target && self.role(u, o, d) >= 1),
+            // write
+            Op::ExecMut(o, d) | Op::Optimize(o, d) => self.role(u, o, d) >= 2,
+            // read
+            Op::ExecRead(o, d) | Op::Audit(o, d) | Op::Copy(o, d, _) | Op::UserList(o, d) => self.role(u, o, d) >= 1,
+            // mutating queries are never allowed through exec
+            Op::ExecWrite(..) => false,
+            // any authenticated user
+            Op::DbList | Op::Logout => true,
+            // server admin
+            _ => u == "admin",
+        }
+    }
+
+    /// Effect of a permitted operation that the server answered with 2xx.
+    fn apply(&mut self, key: &str, op: &Op) -> Result<(), String> {
+        let user = self.who(key).ok_or("apply without a user")?;
+        let k = |o: &str, d: &str| (o.to_string(), d.to_string());
+        match op {
+            Op::Add(o, d) | Op::AdminDbAdd(o, d) => {
+                if self.dbs.contains_key(&k(o, d)) {
+                    return Err("the database exists already".to_string());
+                }
+                let mut m = match self.orphans.remove(&k(o, d)) {
+                    Some(m) => m, // the files of a removed database are adopted
+                    None => MDb { kind: "mapped".to_string(), roles: BTreeMap::new(), content: RefDb::new(), audit: vec![], has_backup: false },
+                };
+                m.roles = BTreeMap::from([(o.to_string(), "admin".to_string())]);
+                self.dbs.insert(k(o, d), m);
+            }
+            Op::Delete(o, d) | Op::AdminDbDelete(o, d) => {
+                self.dbs.remove(&k(o, d)).ok_or("no such database")?;
+            }
+            Op::Remove(o, d) => {
+                let m = self.dbs.remove(&k(o, d)).ok_or("no such database")?;
+                self.orphans.insert(k(o, d), m);
+            }
+            Op::Copy(o, d, n) => {
+                let src = self.dbs.get(&k(o, d)).ok_or("no such database")?;
+                if self.dbs.contains_key(&k(&user, n)) || self.orphans.contains_key(&k(&user, n)) {
+                    return Err("the target exists already".to_string());
+                }
+                let mut m = src.copy();
+                m.roles = BTreeMap::from([(user.clone(), "admin".to_string())]);
+                m.has_backup = false;
+                self.dbs.insert(k(&user, n), m);
+            }
+            Op::Rename(o, d, n) => {
+                if self.dbs.contains_key(&k(o, n)) || self.orphans.contains_key(&k(o, n)) {
+                    return Err("the target exists already".to_string());
+                }
+                let m = self.dbs.remove(&k(o, d)).ok_or("no such database")?;
+                self.dbs.insert(k(o, n), m);
+            }
+            Op::AdminDbRename(o, d, no, nd) => {
+                if (o, d) != (no, nd) {
+                    if self.dbs.contains_key(&k(no, nd)) || self.orphans.contains_key(&k(no, nd)) {
+                        return Err("the target exists already".to_string());
+                    }
+                    let mut m = self.dbs.remove(&k(o, d)).ok_or("no such database")?;
+                    if o != no {
+                        m.roles.insert(no.to_string(), "admin".to_string());
+                    }
+                    self.dbs.insert(k(no, nd), m);
+                }
+            }
+            Op::Backup(o, d) => {
+                self.dbs.get_mut(&k(o, d)).ok_or("no such database")?.has_backup = true;
+            }
+            Op::ClearAll(o, d) => {
+                let m = self.dbs.get_mut(&k(o, d)).ok_or("no such database")?;
+                m.content = RefDb::new();
+                m.audit.clear();
+                m.has_backup = false;
+            }
+            Op::ExecMut(o, d) | Op::AdminDbExecMut(o, d) => {
+                let m = self.dbs.get_mut(&k(o, d)).ok_or("no such database")?;
+                let q = write_queries();
+                m.content.apply(&q)?;
+                for x in q.iter().filter(|x| is_mutating(x)) {
+                    m.audit.push(json!({"user": user, "query": serde_json::to_value(x).unwrap()}));
+                }
+            }
+            Op::UserAdd(o, d, u, r) | Op::AdminDbUserAdd(o, d, u, r) => {
+                if !self.users.contains_key(*u) {
+                    return Err("no such user".to_string());
+                }
+                self.dbs.get_mut(&k(o, d)).ok_or("no such database")?.roles.insert(u.to_string(), r.to_string());
+            }
+            Op::UserRemove(o, d, u) => {
+                self.dbs.get_mut(&k(o, d)).ok_or("no such database")?.roles.remove(*u);
+            }
+            Op::Logout => {
+                let (u, valid) = self.tokens.get_mut(key).ok_or("unknown token")?;
+                *valid = false;
+                let u = u.clone();
+                if let Some(s) = self.users.get_mut(&u) {
+                    *s = s.saturating_sub(1);
+                }
+            }
+            Op::AdminUserAdd(u) => {
+                if self.users.contains_key(*u) {
+                    return Err("the user exists already".to_string());
+                }
+                self.users.insert(u.to_string(), 0);
+            }
+            Op::AdminUserDelete(u) => {
+                self.users.remove(*u).ok_or("no such user")?;
+                for (_, (tu, valid)) in self.tokens.iter_mut() {
+                    if tu == u {
+                        *valid = false;
+                    }
+                }
+                self.dbs.retain(|(o, _), _| o != u);
+                self.orphans.retain(|(o, _), _| o != u);
+                for m in self.dbs.values_mut() {
+                    m.roles.remove(*u);
+                }
+            }
+            Op::AdminUserLogout(u) => {
+                if !self.users.contains_key(*u) {
+                    return Err("no such user".to_string());
+                }
+                for (_, (tu, valid)) in self.tokens.iter_mut() {
+                    if tu == u {
+                        *valid = false;
+                    }
+                }
+                self.users.insert(u.to_string(), 0);
+            }
+            Op::AdminLogoutAll => {
+                for (_, (tu, valid)) in self.tokens.iter_mut() {
+                    if tu != "admin" {
+                        *valid = false;
+                    }
+                }
+                for (u, s) in self.users.iter_mut() {
+                    if u != "admin" {
+                        *s = 0;
+                    }
+                }
+            }
+            Op::Optimize(..) | Op::Audit(..) | Op::ExecRead(..) | Op::UserList(..) | Op::DbList | Op::AdminUserList | Op::AdminDbList => {}
+            Op::ExecWrite(..) => return Err("never permitted".to_string()),
+        }
+        Ok(())
+    }
+}
+
+// ---------------------------------------------------------------------------
+
+fn bases() -> Vec<Base> {
+    let common = |extra: Vec<Setup>| -> Vec<Setup> {
+        let mut v = vec![
+            Setup::AddUser("usr1"),
+            Setup::AddUser("usr2"),
+            Setup::Login("usr1", "usr1"),
+            Setup::Login("usr2", "usr2"),
+            Setup::Login("usr1", "usr1_loggedout"),
+            Setup::Logout("usr1_loggedout"),
+            Setup::Login("admin", "admin_loggedout"),
+            Setup::Logout("admin_loggedout"),
+            Setup::Login("usr1", "usr1_expired"),
+            Setup::Expire("usr1_expired"),
+            Setup::Login("admin", "admin_expired"),
+            Setup::Expire("admin_expired"),
+        ];
+        v.extend(extra);
+        v
+    };
+    let init = qjson(&init_queries());
+    let db = |caller: &'static str, o: &str, d: &str| -> Vec<Setup> {
+        vec![Setup::Call(caller, "POST", format!("/db/{o}/{d}/add?db_type=mapped"), None), Setup::Call(caller, "POST", format!("/db/{o}/{d}/exec_mut"), Some(init.clone()))]
+    };
+    let mut b1 = db("usr1", "usr1", "db1");
+    b1.push(Setup::Call("usr1", "PUT", "/db/usr1/db1/user/usr2/add?db_role=read".to_string(), None));
+    let mut b2 = db("usr1", "usr1", "db1");
+    b2.push(Setup::Call("usr1", "PUT", "/db/usr1/db1/user/usr2/add?db_role=admin".to_string(), None));
+    b2.extend(db("usr2", "usr2", "db2"));
+    b2.push(Setup::Call("usr2", "PUT", "/db/usr2/db2/user/usr1/add?db_role=write".to_string(), None));
+    vec![
+        Base::build("c24-users-only", &common(vec![])),
+        Base::build("c24-db1-usr2-reads", &common(b1)),
+        Base::build("c24-db1-usr2-admin-db2-usr1-writes", &common(b2)),
+    ]
+}
+
+fn pool_names() -> Vec<(String, String)> {
+    let mut v = vec![];
+    for o in ["admin", "usr1", "usr2", "usr3"] {
+        for d in ["db1", "db2", "db9"] {
+            v.push((o.to_string(), d.to_string()));
+        }
+    }
+    v
+}
+
+#[derive(Clone, Debug)]
+struct Step {
+    caller: &'static str,
+    op: Op,
+}
+
+struct Found {
+    signature: String,
+    what: String,
+}
+
+#[derive(Default)]
+struct Stats {
+    sequences: AtomicU64,
+    requests: AtomicU64,
+    denied_checked: AtomicU64,
+    permitted_applied: AtomicU64,
+    permitted_failed: AtomicU64,
+    model_lost: AtomicU64,
+}
+
+fn diff_summary(model: &Value, real: &Value) -> String {
+    let mut parts = vec![];
+    if model["users"] != real["users"] {
+        parts.push(format!("users: expected {} got {}", model["users"], real["users"]));
+    }
+    let key = |d: &Value| format!("{}/{}", d["owner"].as_str().unwrap_or("?"), d["db"].as_str().unwrap_or("?"));
+    let m: BTreeMap<String, Value> = model["dbs"].as_array().cloned().unwrap_or_default().into_iter().map(|d| (key(&d), d)).collect();
+    let r: BTreeMap<String, Value> = real["dbs"].as_array().cloned().unwrap_or_default().into_iter().map(|d| (key(&d), d)).collect();
+    for (k, d) in &m {
+        match r.get(k) {
+            None => parts.push(format!("database {k} expected but missing")),
+            Some(x) => {
+                for f in ["type", "has_backup", "roles", "dump", "audit"] {
+                    if d[f] != x[f] {
+                        parts.push(format!("{k}.{f}: expected {} got {}", d[f], x[f]));
+                    }
+                }
+            }
+        }
+    }
+    for k in r.keys() {
+        if !m.contains_key(k) {
+            parts.push(format!("database {k} exists but is not expected"));
+        }
+    }
+    if real.get("error").is_some() {
+        parts.push(format!("world cannot be observed: {}", real["error"]));
+    }
+    let mut s = parts.join("; ");
+    if s.len() > 900 {
+        s.truncate(900);
+    }
+    s
+}
+
+fn run_sequence(lab: &mut Lab, base: &Base, seq: &[Step], stats: Option<&Stats>, states: Option<&DistinctCounter>, outcomes: Option<&DistinctCounter>) -> (Vec<Found>, Vec<String>) {
+    lab.reset(base);
+    if let Some(s) = stats {
+        s.sequences.fetch_add(1, Ordering::Relaxed);
+    }
+    let mut found = vec![];
+    let mut transcript = vec![];
+    let mut world = lab.observe();
+    let mut model = Model::of_base(&world);
+    if model.observe() != world {
+        engine::machinery_failure(&format!("the model does not reproduce base world {}: {}", base.name, diff_summary(&model.observe(), &world)));
+    }
+    for step in seq {
+        let req = step.op.request(step.caller);
+        let who = model.who(&req.caller);
+        let permitted = model.permitted(&req.caller, &step.op);
+        let role = model.role_name(who.as_ref(), &step.op);
+        let resp = lab.call(base, &req);
+        let after = lab.observe();
+        if let Some(s) = stats {
+            s.requests.fetch_add(1, Ordering::Relaxed);
+        }
+        if let Some(s) = states {
+            s.insert(after.to_string().as_bytes());
+        }
+        if let Some(o) = outcomes {
+            o.insert(format!("{}|{}|{}|{}|{}", step.op.kind(), step.caller, role, permitted, resp.status).as_bytes());
+        }
+        let sig = |clause: &str| format!("c24|op={}|caller={}|as={role}|clause={clause}|status={}", step.op.kind(), step.caller, resp.status);
+        let ctx = format!("{} (caller {} acting as {role}) answered {} {}", req.short(), step.caller, resp.status, engine::normalise(&resp.text()));
+        transcript.push(format!("{}:{} as={role} permitted={permitted} -> {} world={:016x}", step.caller, step.op.label(), resp.status, engine::fnv(after.to_string().as_bytes())));
+        if !permitted {
+            if let Some(s) = stats {
+                s.denied_checked.fetch_add(1, Ordering::Relaxed);
+            }
+            if resp.ok() {
+                found.push(Found { signature: sig("not-rejected"), what: format!("{ctx}; the documented permission table does not allow this request, yet it was accepted") });
+            } else if ![401, 403, 404].contains(&resp.status) {
+                found.push(Found { signature: sig("reject-status"), what: format!("{ctx}; a request without permission must be rejected with 401/403/404") });
+            }
+            if after != world {
+                found.push(Found { signature: sig("effect-without-permission"), what: format!("{ctx}; the request is not permitted but the observable world changed: {}", diff_summary(&world, &after)) });
+                // the model follows the server so that later steps are judged on their own
+                break;
+            }
+        } else if resp.ok() {
+            if let Some(s) = stats {
+                s.permitted_applied.fetch_add(1, Ordering::Relaxed);
+            }
+            match model.apply(&req.caller, &step.op) {
+                Ok(()) => {
+                    let want = model.observe();
+                    if want != after {
+                        found.push(Found { signature: sig("effect"), what: format!("{ctx}; the world after the accepted request differs from the model: {}", diff_summary(&want, &after)) });
+                        break;
+                    }
+                }
+                Err(e) => {
+                    found.push(Found { signature: sig("accepted-impossible"), what: format!("{ctx}; the request was accepted although the model says it cannot succeed: {e}") });
+                    break;
+                }
+            }
+        } else {
+            if let Some(s) = stats {
+                s.permitted_failed.fetch_add(1, Ordering::Relaxed);
+            }
+            // nothing is demanded of a permitted request that failed; if it changed the world the model is lost
+            if after != model.observe() {
+                if let Some(s) = stats {
+                    s.model_lost.fetch_add(1, Ordering::Relaxed);
+                }
+                transcript.push("model lost after a failed permitted request that changed the world".to_string());
+                break;
+            }
+        }
+        world = after;
+        if !lab.alive() {
+            break;
+        }
+    }
+    (found, transcript)
+}
+
+fn seq_json(base: &Base, seq: &[Step]) -> Value {
+    json!({
+        "base": base.name,
+        "steps": seq.iter().map(|s| json!({"caller": s.caller, "op": s.op.label()})).collect::<Vec<_>>(),
+        "requests": seq.iter().map(|s| s.op.request(s.caller).to_json()).collect::<Vec<_>>(),
+    })
+}
+
+fn caller_static(c: &str) -> &'static str {
+    CALLERS.iter().find(|x| **x == c).copied().unwrap_or_else(|| engine::machinery_failure(&format!("unknown caller {c}")))
+}
+
+fn step_of(caller: &str, label: &str, all: &[Op]) -> Step {
+    let op = all.iter().find(|o| o.label() == label).cloned().unwrap_or_else(|| engine::machinery_failure(&format!("unknown operation {label}")));
+    Step { caller: caller_static(caller), op }
+}
+
+pub(crate) fn run(args: &Args) -> i32 {
+    let report = Report::new(args, "model_checking");
+    let all_ops = ops();
+    let bases = bases();
+    let pool = pool_names();
+
+    if let Some(path) = &args.replay {
+        let doc = crate::vh::world::replay_doc(path);
+        let base = bases.iter().find(|b| doc["base"] == b.name.as_str()).unwrap_or_else(|| engine::machinery_failure("replay: unknown base world"));
+        let seq: Vec<Step> = doc["steps"].as_array().cloned().unwrap_or_default().iter().map(|s| step_of(s["caller"].as_str().unwrap_or(""), s["op"].as_str().unwrap_or(""), &all_ops)).collect();
+        let mut lab = Lab::new("c24r", true, &pool);
+        let (found, transcript) = run_sequence(&mut lab, base, &seq, None, None, None);
+        for t in &transcript {
+            println!("replay: {t}");
+        }
+        for f in found {
+            report.violation(&f.signature, &f.what, seq_json(base, &seq));
+        }
+        report.set("states", json!(1));
+        report.set("transitions", json!(transcript.len().max(1)));
+        report.set("traces_validated_against_impl", json!(1));
+        report.sample(json!({"replayed": transcript}));
+        return report.finish();
+    }
+
+    // alphabets
+    let invalid_ops = invalid_caller_ops();
+    let mut standard: Vec<Step> = vec![];
+    let mut full: Vec<Step> = vec![];
+    for op in &all_ops {
+        for c in CALLERS {
+            let valid = ["admin", "usr1", "usr2"].contains(&c);
+            full.push(Step { caller: c, op: op.clone() });
+            if valid || invalid_ops.contains(&op.label()) {
+                standard.push(Step { caller: c, op: op.clone() });
+            }
+        }
+    }
+    let reduced: Vec<Step> = reduced_alphabet().iter().map(|(c, l)| step_of(c, l, &all_ops)).collect();
+    // (alphabet, depth) per tier
+    let plans: Vec<(&str, &Vec<Step>, usize)> = match args.tier {
+        Tier::Quick => vec![("standard", &standard, 2)],
+        Tier::Thorough => vec![("full-product", &full, 2), ("reduced", &reduced, 3)],
+    };
+
+    let stats = Stats::default();
+    let states = DistinctCounter::default();
+    let outcomes = DistinctCounter::default();
+    let candidates: std::sync::Mutex<Vec<(usize, Vec<Step>, Vec<Found>, Vec<String>)>> = std::sync::Mutex::new(vec![]);
+    let w = engine::workers();
+    let labs: Vec<std::sync::Mutex<Lab>> = (0..w).map(|_| std::sync::Mutex::new(Lab::new("c24", false, &pool))).collect();
+
+    // selfcheck of the fast reset: every single request of the full product gives the same
+    // status and world on a world reset in place and on a freshly started server
+    {
+        let fresh: Vec<std::sync::Mutex<Lab>> = (0..w).map(|_| std::sync::Mutex::new(Lab::new("c24f", true, &pool))).collect();
+        let items: Vec<(usize, &Step)> = bases.iter().enumerate().flat_map(|(bi, _)| standard.iter().map(move |s| (bi, s))).collect();
+        let mismatches = AtomicU64::new(0);
+        engine::par_for(items.len(), args.seed, |wi, i| {
+            let (bi, step) = items[i];
+            let seq = vec![step.clone()];
+            let (f1, t1) = run_sequence(&mut labs[wi].lock().unwrap(), &bases[bi], &seq, None, None, None);
+            let (f2, t2) = run_sequence(&mut fresh[wi].lock().unwrap(), &bases[bi], &seq, None, None, None);
+            if t1 != t2 || f1.len() != f2.len() {
+                mismatches.fetch_add(1, Ordering::Relaxed);
+                eprintln!("reset selfcheck mismatch on {}: {:?} vs {:?}", bases[bi].name, t1, t2);
+            }
+        });
+        if mismatches.load(Ordering::Relaxed) > 0 {
+            engine::machinery_failure("the in-place world reset does not behave like a freshly started server");
+        }
+        report.set("reset_selfcheck_requests", json!(items.len()));
+    }
+
+    let mut plan_info = vec![];
+    for (name, alphabet, depth) in &plans {
+        // work items: (base, first step); each item runs all sequences with that first step
+        let items: Vec<(usize, usize)> = (0..bases.len()).flat_map(|b| (0..alphabet.len()).map(move |a| (b, a))).collect();
+        engine::par_for(items.len(), args.seed, |wi, i| {
+            let (bi, ai) = items[i];
+            let mut lab = labs[wi].lock().unwrap();
+            let mut seq = vec![alphabet[ai].clone()];
+            explore(&mut lab, &bases[bi], bi, &mut seq, *depth, alphabet, &stats, &states, &outcomes, &candidates, &report);
+        });
+        plan_info.push(json!({"alphabet": name, "alphabet_size": alphabet.len(), "depth": depth, "base_worlds": bases.len()}));
+    }
+    report.set("profile", Lab::profile(&labs));
+    drop(labs);
+
+    let mut cands = candidates.into_inner().unwrap();
+    cands.sort_by_key(|c| (c.1.len(), c.0, seq_json(&bases[c.0], &c.1)["steps"].to_string()));
+    let mut confirmed: BTreeSet<String> = BTreeSet::new();
+    let mut lab = Lab::new("c24c", true, &pool);
+    let mut replays = 0u64;
+    for (bi, seq, found, transcript) in &cands {
+        if found.iter().any(|f| !confirmed.contains(&f.signature)) {
+            for round in 0..2 {
+                let (f2, t2) = run_sequence(&mut lab, &bases[*bi], seq, None, None, None);
+                replays += 1;
+                let sigs = |v: &Vec<Found>| v.iter().map(|f| f.signature.clone()).collect::<Vec<_>>();
+                if &t2 != transcript || sigs(&f2) != sigs(found) {
+                    engine::machinery_failure(&format!("C24 case does not reproduce on a freshly started server (round {round}): {}\n  explored: {transcript:?}\n  replayed: {t2:?}", seq_json(&bases[*bi], seq)["steps"]));
+                }
+            }
+            for f in found {
+                confirmed.insert(f.signature.clone());
+            }
+        }
+        for f in found {
+            report.violation(&f.signature, &f.what, seq_json(&bases[*bi], seq));
+        }
+    }
+
+    report.set("states", json!(states.len()));
+    report.set("transitions", json!(stats.requests.load(Ordering::Relaxed)));
+    report.set("traces_validated_against_impl", json!(stats.sequences.load(Ordering::Relaxed)));
+    report.set("plans", json!(plan_info));
+    report.set("operations", json!(all_ops.iter().map(|o| o.label()).collect::<Vec<_>>()));
+    report.set("callers", json!(CALLERS));
+    report.set("requests_not_permitted_checked", json!(stats.denied_checked.load(Ordering::Relaxed)));
+    report.set("requests_permitted_applied", json!(stats.permitted_applied.load(Ordering::Relaxed)));
+    report.set("requests_permitted_but_failed", json!(stats.permitted_failed.load(Ordering::Relaxed)));
+    report.set("sequences_cut_because_a_failed_permitted_request_changed_the_world", json!(stats.model_lost.load(Ordering::Relaxed)));
+    report.set("distinct_outcomes", json!(outcomes.len()));
+    report.set("violating_sequences", json!(cands.len()));
+    report.set("confirmation_replays_on_fresh_server", json!(replays));
+    report.set("exhaustive", json!(true));
+    report.set("what", json!("all request sequences of length <= depth over the alphabet(s) listed in plans, from 3 base worlds; states = distinct observable worlds; transitions = requests executed; distinct_outcomes = distinct (operation, caller, role of the caller, permitted?, status)"));
+    report.assume("permission table as documented in agdb_web/content/docs/03.references/02.server.md; in addition a user may remove their own role from a database (repository test db_user_remove_test::remove_self fixes that behaviour)");
+    report.assume("token expiry is exercised by rewriting the stored expiry, not by waiting; tokens are the ones the login responses returned");
+    report.assume("the HTTP layers below axum routing (TLS, hyper) are not part of the in-process server");
+    report.finish()
+}
+
+#[allow(clippy::too_many_arguments)]
+fn explore(
+    lab: &mut Lab,
+    base: &Base,
+    bi: usize,
+    seq: &mut Vec<Step>,
+    depth: usize,
+    alphabet: &[Step],
+    stats: &Stats,
+    states: &DistinctCounter,
+    outcomes: &DistinctCounter,
+    candidates: &std::sync::Mutex<Vec<(usize, Vec<Step>, Vec<Found>, Vec<String>)>>,
+    report: &Report,
+) {
+    let (found, transcript) = run_sequence(lab, base, seq, Some(stats), Some(states), Some(outcomes));
+    if seq.len() == 2 && bi == 1 && seq[0].caller == "usr1" && seq[0].op.label().starts_with("db-user-add-write") && seq[1].caller == "usr2" && seq[1].op.label().starts_with("exec_mut:usr1/db1") {
+        report.sample(json!({"base": base.name, "sequence": seq.iter().map(|s| format!("{}:{}", s.caller, s.op.label())).collect::<Vec<_>>(), "transcript": transcript}));
+    }
+    let violated = !found.is_empty();
+    if violated {
+        candidates.lock().unwrap().push((bi, seq.clone(), found, transcript));
+    }
+    // violating sequences are extended too (each extension is judged up to the point where the
+    // model loses the world); the shortest case per signature becomes the replay file
+    let _ = violated;
+    if seq.len() < depth {
+        for a in alphabet {
+            seq.push(a.clone());
+            explore(lab, base, bi, seq, depth, alphabet, stats, states, outcomes, candidates, report);
+            seq.pop();
+        }
+    }
 }
